@@ -79,6 +79,7 @@ type Config struct {
 	ByzRules  map[hotstuff.ID]string
 	Puppets   []hotstuff.ID
 	Profile   string
+	Intensity int // 0 calm, 1 medium, 2 hostile
 	Steps     int
 	Clients   bool // commands enter through real ClientIO.ExecCommand calls (C06)
 	NilSigs   bool // scripted actors may send messages with absent signature objects (C10-class)
@@ -87,7 +88,7 @@ type Config struct {
 
 func (c Config) String() string {
 	return fmt.Sprintf("n=%d %s %s cache=%d leader=%s twins=%v scripted=%v byzrules=%v profile=%s steps=%d batch=%d",
-		c.N, c.Ruleset, c.Scheme, c.Cache, c.Leader, c.Twins, c.Scripted, c.ByzRules, c.Profile, c.Steps, c.BatchSize)
+		c.N, c.Ruleset, c.Scheme, c.Cache, c.Leader, c.Twins, c.Scripted, c.ByzRules, fmt.Sprintf("%s/%d", c.Profile, c.Intensity), c.Steps, c.BatchSize)
 }
 
 // Pending is a message in flight.
@@ -465,6 +466,8 @@ type cmdFeed struct {
 	submitted  map[int]int
 	recordedBy map[int]int
 	retry      []retryItem
+	done       map[int]map[clientpb.MessageID]bool
+	retrying   bool
 	retried    map[int]map[clientpb.MessageID]int
 }
 
@@ -484,7 +487,7 @@ type Outcome struct {
 
 func newCmdFeed(c *Cluster) *cmdFeed {
 	f := &cmdFeed{c: c, next: map[int]map[uint32]uint64{}, clients: 3, waiting: map[int]map[clientpb.MessageID]bool{}, issued: map[int][]*clientpb.Command{},
-		submitted: map[int]int{}, recordedBy: map[int]int{}, retried: map[int]map[clientpb.MessageID]int{}}
+		submitted: map[int]int{}, recordedBy: map[int]int{}, retried: map[int]map[clientpb.MessageID]int{}, done: map[int]map[clientpb.MessageID]bool{}}
 	for _, a := range c.Actors {
 		f.next[a.Idx] = map[uint32]uint64{}
 		f.waiting[a.Idx] = map[clientpb.MessageID]bool{}
@@ -518,7 +521,7 @@ func (f *cmdFeed) submit(a *Actor, cmd *clientpb.Command) {
 	}
 	id := cmd.ID()
 	f.mu.Lock()
-	if f.waiting[a.Idx][id] {
+	if f.waiting[a.Idx][id] || (f.done[a.Idx][id] && !f.retrying) {
 		f.mu.Unlock()
 		return
 	}
@@ -543,6 +546,10 @@ func (f *cmdFeed) submit(a *Actor, cmd *clientpb.Command) {
 			}
 		}
 		delete(f.waiting[a.Idx], id)
+		if f.done[a.Idx] == nil {
+			f.done[a.Idx] = map[clientpb.MessageID]bool{}
+		}
+		f.done[a.Idx][id] = true
 		f.recordedBy[a.Idx]++
 		f.mu.Unlock()
 		f.recorded.Add(1)
@@ -557,12 +564,14 @@ func (f *cmdFeed) topUp() {
 	retry := f.retry
 	f.retry = nil
 	f.mu.Unlock()
+	f.retrying = true
 	for _, it := range retry {
 		a := f.c.Actors[it.actor]
 		if a.Node != nil && !a.Crashed {
 			f.submit(a, it.cmd)
 		}
 	}
+	f.retrying = false
 	// Liveness reserve: every replica also has a private client whose commands no other replica receives, so
 	// that other leaders' proposals (which advance the shared clients' proposed markers) can never make all of
 	// a replica's cached commands stale at once. The shared clients 1..3 provide the overlapping command sets.
